@@ -84,7 +84,7 @@ def gen_refcode(rng, creator, pool=None):
     elif creator == "H":
         head = "B7"
     else:
-        head = rng.choice(["B1", "B2", "A7", "C1"])
+        head = rng.choice(["B1", "B2", "A7", "C1", "BC", "BD"])
     comp = rng.choice(["8D", "E5", "20", "75", "9A", "A1"])
     return head + comp + "%04X" % rng.randrange(0x10000) + rng.choice(["", "", "", "", " LIC", " 00000001"])
 
@@ -227,7 +227,7 @@ def gen_ud(rng, creator, targets=None):
            "ver": rng.choice([1, 1, 2, 2, 3, 0, 0x7F, 0xFF]), "subtype": rng.choice([1, 2, 3, 4, 0x48, 0x49, 0x54, 0xAA])}
     sec_creator = creator
     if kind == "ed":
-        sec_creator = rng.choice(KNOWN_CREATORS + "ZQ")
+        sec_creator = rng.choice(KNOWN_CREATORS + "ZQobm")
     if targets and rng.random() < 0.7:
         tc, comp = rng.choice(targets)
         if kind == "ed":
@@ -290,7 +290,7 @@ def gen_raw(rng, sid=None):
 def gen_id(rng, magnitude=None):
     m = magnitude or rng.choice(["typical", "typical", "typical", "small", "mid", "max"])
     if m == "small":
-        return rng.randrange(1, 0x10)
+        return rng.randrange(0, 0x10)
     if m == "mid":
         return rng.randrange(0x10, 0x10000000)
     if m == "max":
@@ -301,7 +301,7 @@ def gen_id(rng, magnitude=None):
 def gen_pel(rng, *, eid=None, plid=None, bmc_id=None, creator=None, want_class=None,
             refcode_pool=None, ud_targets=None, max_sections=8, with_src=None,
             id_magnitude=None, src_callouts=None):
-    creator = creator or rng.choice(["O", "O", "O", "B", "H", "M", "T", "P", "S", "K", "L", "C", "O", "B", "H", "X", "7", "z"])
+    creator = creator or rng.choice(["O", "O", "O", "B", "H", "M", "T", "P", "S", "K", "L", "C", "O", "B", "H", "X", "7", "z", "o", "b"])
     sev, action = gen_class(rng, want_class)
     eid = gen_id(rng, id_magnitude) if eid is None else eid
     def stamp():
